@@ -22,6 +22,8 @@ fn main() {
         std::process::exit(2);
     }
     let rest = &args[2..];
+    util::set_cmd(args[1..].join(" "));
+    util::watchdog_start();
     match args[1].as_str() {
         "invhash-vectors" => invhash::vectors(rest),
         "invhash-search" => invhash::search(rest),
@@ -31,6 +33,7 @@ fn main() {
         "sk-cases" => sk::cases(rest),
         "bounds-props" => setf::bounds(rest),
         "card-props" => setf::card(rest),
+        "card-mc" => setf::card_mc(rest),
         "exp01-cases" => exp01h::cases(rest),
         "exp01-law" => exp01h::law(rest),
         "sig-cases" => sigs::cases(rest),
@@ -53,6 +56,7 @@ fn main() {
         "fy-pick-cases" => fy::pick_cases(rest),
         "fy-search" => fy::search(rest),
         "fy-replay" => fy::replay(rest),
+        "fy-large" => fy::large(rest),
         "tracker-cases" => tracker::cases(rest),
         "tracker-search" => tracker::search(rest),
         "tracker-replay" => tracker::replay(rest),
